@@ -83,6 +83,13 @@ fn execute(id: usize, cid: &str, setup: &CrystalSetup, pol: PolarizationType, ph
     let a = args.clone();
     let st = setup.clone();
     let nm = name.clone();
+    // what the Snell inversion returns on the state the setter sees (the "requested" internal angle of this step)
+    let snell_internal = if name == "set_theta_external" {
+      guarded({ let bb = beam.clone(); let st = setup.clone(); let a0 = args[0];
+        move || *(Beam::calc_internal_theta_from_external(&bb, a0.abs() * RAD, &st) / RAD) }).ok()
+    } else {
+      None
+    };
     let r = guarded(move || {
       let mut b = before;
       match nm.as_str() {
@@ -103,13 +110,7 @@ fn execute(id: usize, cid: &str, setup: &CrystalSetup, pol: PolarizationType, ph
     match r {
       Ok(b) => {
         beam = b;
-        let mut extra = json!({});
-        if name == "set_theta_external" {
-          // what the Snell inversion returned (the "requested" internal angle of this step)
-          let th = guarded({ let bb = beam.clone(); let st = setup.clone(); let a0 = args[0];
-            move || *(Beam::calc_internal_theta_from_external(&bb, a0.abs() * RAD, &st) / RAD) });
-          extra = json!({"snell_internal": th.ok().map(fx)});
-        }
+        let extra = if name == "set_theta_external" { json!({"snell_internal": snell_internal.map(fx)}) } else { json!({}) };
         steps.push(json!({"op": name, "args": fxs(args), "after": state(&beam), "extra": extra}));
       }
       Err(msg) => {
